@@ -143,8 +143,11 @@ def render(prog, name='wf', jinja=False):
                 'next': _clause(t.get('on-success', []), jinja)}
         tasks[tn] = d
     wf['tasks'] = tasks
-    return yaml.safe_dump({'version': '2.0', name: wf}, sort_keys=False,
-                          default_flow_style=False)
+    doc = {'version': '2.0', name: wf}
+    for sname, sprog in (prog.get('subs') or {}).items():
+        sub = yaml.safe_load(render(sprog, name=sname, jinja=jinja))
+        doc[sname] = sub[sname]
+    return yaml.safe_dump(doc, sort_keys=False, default_flow_style=False)
 
 
 # ------------------------------------------------------------------ helpers
